@@ -115,6 +115,7 @@ pub struct Summary {
     pub ends: BTreeMap<String, u64>,
     pub families: BTreeMap<String, u64>,
     pub flavours: BTreeMap<String, u64>,
+    pub knobs: BTreeMap<String, u64>,
     pub caps: BTreeMap<String, u64>,
     pub waits: BTreeMap<String, u64>,
     pub strategies: BTreeMap<String, u64>,
@@ -246,6 +247,23 @@ impl<'a> RunSource for Src<'a> {
         sum.sim_time_ms += o.stats.sim_time_ms;
         bump(&mut sum.ends, o.end.name().to_string());
         bump(&mut sum.families, scn.family.clone());
+        // per-run simulator knobs (swarm style: each is on in a random subset of the runs)
+        for (on, name) in [
+            (scn.post_write, "post_write_points"),
+            (scn.post_load, "post_load_points"),
+            (scn.quarantine, "allocator_quarantine"),
+            (scn.trap.is_some(), "probe_anchored_stall"),
+            (scn.trap_thread.is_some(), "thread_bound_stall"),
+            (scn.weak_cas_rate > 0, "weak_cas_failures"),
+            (scn.slow_clone > 0, "slow_clone_view"),
+            (scn.slow_drop > 0, "slow_drop"),
+            (scn.spurious_poll > 0, "spurious_polls"),
+            (!cfg.stalls.is_empty(), "planned_stalls"),
+        ] {
+            if on {
+                bump(&mut sum.knobs, name.to_string());
+            }
+        }
         for t in &scn.tags {
             if let Some(v) = t.strip_prefix("flavour=") {
                 bump(&mut sum.flavours, v.to_string());
@@ -350,6 +368,7 @@ pub fn run_worker(cfg: &WorkerCfg) -> J {
         .set("ends", map_json(&s.ends))
         .set("families", map_json(&s.families))
         .set("flavours", map_json(&s.flavours))
+        .set("knobs", map_json(&s.knobs))
         .set("capacities", map_json(&s.caps))
         .set("waits", map_json(&s.waits))
         .set("strategies", map_json(&s.strategies))
